@@ -56,8 +56,10 @@ def calls_for(rng, tier):
         nch = rng.randint(1, 4)
         chunks = sorted_stream(rng, n, symm, nch)
         fk = rng.choice(["none", "none", "iter_raise", "invalid", "invalid", "crash_indexes", "crash_info",
-                         "crash_tables", "crash_after_tables", "bad_metadata"])
+                         "crash_tables", "crash_after_tables", "bad_metadata", "kill", "kill"])
         fault = {"kind": fk, "at": 0}
+        if fk == "kill":                       # process death before the at-th file open of the writer (one beyond: may complete)
+            fault["at"] = rng.randint(1, 4 + nch)
         if fk == "iter_raise":
             fault["at"] = rng.randint(0, nch)
             chunks = chunks[:fault["at"]]
@@ -105,6 +107,16 @@ def systematic():
         for fk in ("crash_indexes", "crash_info", "crash_tables", "crash_after_tables", "bad_metadata", "none"):
             yield pre + [{"dest": dest, "mode": "a", "n": n, "symm": symm, "chunks": base,
                           "fault": {"kind": fk, "at": 0}, "noslash": False, "explicit_root": True}]
+        # PROCESS DEATH before every file open of the writer (1 = before anything, ..., 3 + m = before the index step, one beyond),
+        # followed by a second, undisturbed creation at the same place: the wreck must not be in its way
+        for at in range(1, len(base) + 5):
+            for again in (False, True):
+                h = pre + [{"dest": dest, "mode": "a", "n": n, "symm": symm, "chunks": base,
+                            "fault": {"kind": "kill", "at": at}, "noslash": False, "explicit_root": True}]
+                if again:
+                    h = h + [{"dest": dest, "mode": "a", "n": n, "symm": symm, "chunks": base[:2], "fault": ok,
+                              "noslash": False, "explicit_root": True}]
+                yield h
 
 
 def tlc_behaviours(tier, seed):
@@ -168,13 +180,13 @@ def cases(tier, seed):
         prod = ["merge", "coarsen", "unordered"][F_h("m3@159", 3)]
         px = gen.random_store(rng, len(table), mode, density=0.8, maxval=3)
         px2 = gen.random_store(rng, len(table), mode, density=0.6, maxval=3)
-        fk = rng.choice(["validator", "validator", "crash_indexes", "crash_info", "crash_tables", "none"] +
+        fk = rng.choice(["validator", "validator", "crash_indexes", "crash_info", "crash_tables", "none", "kill", "kill"] +
                         (["invalid"] if prod == "unordered" else ["invalid_source"]))
         dest = rng.choice([["a"], ["a", "n"], ["b"], []])
         existing = [p for p in PATHS if p != dest and not (dest and p[:len(dest)] == dest) and rng.random() < 0.6]
         yield "cr.producer", {"paths": PATHS, "table": table, "mode": mode, "producer": prod, "px": px, "px2": px2,
                               "existing": existing, "dest": dest, "buf": rng.choice([1, 2, 10 ** 6]), "k": rng.choice([2, 3]),
-                              "fault": {"kind": fk, "at": rng.randint(0, 2), "what": rng.choice(["neg", "other", "other"])}}
+                              "fault": {"kind": fk, "at": rng.randint(0, 2) if fk != "kill" else rng.randint(0, 9), "what": rng.choice(["neg", "other", "other"])}}
 
 
 def run(tier, seed, only_case=None):
@@ -183,26 +195,33 @@ def run(tier, seed, only_case=None):
               "URIs with and without leading slash); systematic part: one invalid record of each kind (negative, too large, both too "
               "large, lower triangle, duplicate) at every chunk index and position and an iterator failure before every chunk "
               "index, for six destination set-ups (new file, new group, group/nested group/root/sibling in a multi-collection "
-              "file), plus injected failures in the table / index / attribute writers; random part: seeded histories. The real "
+              "file), plus injected failures in the table / index / attribute writers and a PROCESS DEATH (forked child, os._exit) before every "
+              "file open of the writer, each also followed by an undisturbed re-creation over the wreck; random part: seeded histories. The real "
               "file is projected (h5py) at every chunk request and at the end; 200 (3000) BEHAVIOURS GENERATED BY TLC (random "
               "simulation of the writer model, spec/MC_CreateSim: 3 calls each with environment-chosen chunks, invalid records, "
               "iterator failures and crashes) are replayed the same way; cr.producer: merge / coarsen / unordered creation "
               "into a multi-collection file with a failure injected at chunk k or in the index/attribute writer. "
               "non-trivial = the history contains a fault.")
-    r.assumptions = ["injected failures are Python exceptions at step boundaries (each step opens and closes the file itself), "
-                     "so cooler's step ordering is tested, not the HDF5 library's crash consistency",
+    r.assumptions = ["injected failures are Python exceptions at step boundaries and PROCESS DEATHS (os._exit in a forked child: no "
+                     "handler, no finally, no HDF5 shutdown) right before every file open of the writer - each step opens and "
+                     "closes the file itself, so the file is closed at these points; a death while HDF5 has the file open for "
+                     "writing is the HDF5 library's crash consistency, not cooler's step ordering, and is not injected",
                      "a failed re-creation over a collection that was recognised before is outside the domain (exempted explicitly)"]
     if only_case is None:
         r.model_check("MC_Create", "MC_Create_quick.cfg" if tier == "quick" else "MC_Create_thorough.cfg")
         cs = cases(tier, seed)
     else:
         cs = [only_case]
+    deaths = {"cr.steps": 0, "cr.producer": 0}
     for drv, case, obs in run_cases(cs, chunk=8):
         if drv == "cr.steps":
             nt = any(c["fault"]["kind"] != "none" for c in case["calls"])
+            deaths[drv] += sum(1 for o in obs.get("calls", []) if o["points"][-1].get("outcome") == "killed")
         else:
             nt = case["fault"]["kind"] != "none"
+            deaths[drv] += 1 if obs.get("outcome") == "killed" else 0
         r.record(TRACE, drv, case, obs, nt)
     r.exhaustive = False
+    r.extra["process_deaths_injected"] = deaths
     r.validate(TRACE)
     return r.finish()
